@@ -100,6 +100,11 @@ def generic_simplifier(rec):
                         sp[key] = sp[key][:-1] if cut == "last" else sp[key][1:]
                 sp["ranks"] = (sp["ranks"][:-2] + [1]) if cut == "last" else ([1] + sp["ranks"][2:])
                 out.append(r)
+        for key in ("scale", "single"):
+            if spec.get(key):
+                r = copy.deepcopy(rec)
+                del r["spec"][key]
+                out.append(r)
         if spec.get("int_storage"):
             r = copy.deepcopy(rec)
             del r["spec"]["int_storage"]
